@@ -37,7 +37,7 @@ type Gen struct {
 
 func DefaultGen(d D) *Gen {
 	return &Gen{D: d,
-		Pids: []string{"p1", "p2", "r"}, Keys: []string{"", "k1", "k2"}, Subs: []string{"s1", "s2"}, Workers: []string{"w1", "w2"},
+		Pids: []string{"p1", "p2", "r"}, Keys: []string{"", "k1", "k2", "<empty>"}, Subs: []string{"s1", "s2"}, Workers: []string{"w1", "w2"},
 		Res: []string{"res1", "res2"}, Execs: []string{"e1", "e2", "e3"}, Scheds: []string{"sch1", "sch2"},
 		Crons:         []string{"* * * * * *", "*/2 * * * * *", "*/5 * * * * *", "@every 1s", "@every 3s", "* * * * *"},
 		TimeoutDeltas: []int64{1, 500, 1000, 2000, 3000, 5000, 60000},
@@ -63,6 +63,10 @@ func (g *Gen) key(label string) *idempotency.Key {
 	k := g.pick(g.Keys, label)
 	if k == "" {
 		return nil
+	}
+	if k == "<empty>" {
+		// a key that is present but empty (the HTTP header `Idempotency-Key:` with nothing after the colon): a key like any other
+		k = ""
 	}
 	kk := idempotency.Key(k)
 	return &kk
